@@ -104,6 +104,18 @@ func (r *Run) Fail(f Failure) {
 	r.failKind[f.Kind][f.Witness] = true
 }
 
+// DropIf removes registered failures (used to fold derived failures into their cause).
+func (r *Run) DropIf(pred func(Failure) bool) {
+	r.mu.Lock()
+	defer r.mu.Unlock()
+	for k, f := range r.failures {
+		if pred(f) {
+			delete(r.failures, k)
+			delete(r.failKind[f.Kind], f.Witness)
+		}
+	}
+}
+
 func (r *Run) NumFailures() int { r.mu.Lock(); defer r.mu.Unlock(); return len(r.failures) }
 
 // Frontier returns the minimal failing cases: a failure is dropped when one
